@@ -113,6 +113,10 @@ func main() {
 			fmt.Fprintf(gen.Out, "shutdown\t%s\t=>\tserver did not come up: %s\n", name, strings.ReplaceAll(stderr.String(), "\n", " | "))
 			continue
 		}
+		// main.go installs its SIGINT handler right after server.Run returns; both listeners
+		// answering does not prove that those few instructions have run on a loaded machine.  The
+		// property's stop request is a SIGINT that reaches the handler (DESIGN.md 11.4).
+		time.Sleep(150 * time.Millisecond)
 		type result struct {
 			status int
 			ok     bool
